@@ -8,6 +8,9 @@
 (*   mode "same"  : obs = val as SYNTAX terms (two outputs parse alike)       *)
 (*                                                               (C03, C09)   *)
 (*   mode "cut"   : obs = CutSyn(val, N, re, rk) for which (re, rk)   (C11)   *)
+(*   mode "layout": obs = val (print under the reference configuration) and   *)
+(*                  every leading-space count (notices) is a multiple of N    *)
+(*                  (= indent)                                        (C03)   *)
 (*   mode "comment": obs = val (uncommented print) and comment words = merge  *)
 (*                  of the attached comments                          (C09)   *)
 (***************************************************************************)
@@ -36,6 +39,9 @@ Verdict(c) ==
     [] c.mode = "same" -> c.obs = c.val
     \* C09: same syntax tree as the uncommented print, and the words found in '#'
     \* comments are an order-preserving merge of the attached comment texts
+    \* C03: same syntax tree as under the reference configuration, and every line is
+    \* indented by a multiple of the indent setting
+    [] c.mode = "layout" -> c.obs = c.val /\ \A i \in 1..Len(c.notices) : c.notices[i] % c.N = 0
     [] c.mode = "comment" -> c.obs = c.val /\ IsMerge(c.cwords, c.attached)
 
 \* C11: which of the four (empty-at-cut, str-key-at-cut) variants the output equals
